@@ -22,7 +22,7 @@ import threading
 from datetime import datetime, timedelta, timezone
 
 EPOCH = datetime(2021, 3, 4, 5, 6, 7, tzinfo=timezone.utc)
-HANG_S = 20.0  # a controlled thread waiting this long (real time) for the baton means the harness itself is stuck
+HANG_S = 90.0  # a controlled thread waiting this long (real time) for the baton means the harness itself is stuck
 
 
 class Abort(BaseException):
@@ -271,7 +271,7 @@ class Ctl:
         if me is not None and not me.done:
             me._wait_turn()
 
-    def run(self, timeout=30.0):
+    def run(self, timeout=120.0):
         for t in self.threads:
             if not t.started:
                 t.started = True
@@ -283,7 +283,7 @@ class Ctl:
             for t in self.threads:
                 t.sem.release()
         for t in self.threads:
-            t.th.join(2.0)
+            t.th.join(15.0)
             if t.th.is_alive():
                 self.status = "hang"
         return self.status
